@@ -4,6 +4,7 @@ import (
 	"bytes"
 	"fmt"
 	"strconv"
+	"strings"
 	"time"
 
 	frugal "github.com/Workiva/frugal/lib/go"
@@ -474,4 +475,18 @@ func replayHeaderLine(op string, args []string) string {
 		return o
 	}
 	return "bad-op"
+}
+
+func init() {
+	suites["c04"] = runC04
+	suites["c05pure"] = runC05Pure
+	for _, op := range []string{"hff", "ums", "exf", "exe", "ahf"} {
+		op := op
+		lineOps[op] = func(args []string) (string, bool) {
+			o := replayHeaderLine(op, args)
+			return o, !(strings.HasPrefix(o, "panic") || o == "blocked")
+		}
+	}
+	// unmarshalFrame is not a receiving entry point: correspondence only
+	lineOps["umf"] = func(args []string) (string, bool) { return replayHeaderLine("umf", args), true }
 }
